@@ -1276,8 +1276,11 @@ func slashTarget(pats []string, path string) string {
 const AdminMux = "globalContext.mux"
 
 // modelled reports whether the route belongs to the model: registered in a
-// package linked into the AdGuardHome binary, on the admin mux.
-func modelled(r *Route) bool { return r.Reachable && r.Mux == AdminMux }
+// package linked into the AdGuardHome binary.  Registrations whose receiver is
+// not literally the admin mux are kept (over-approximation: a local alias of
+// the admin mux must not hide a route); the check decides at run time, from
+// the census of the real mux, whether such a pattern is served at all.
+func modelled(r *Route) bool { return r.Reachable && !strings.HasPrefix(r.Pat, "?") }
 
 func renderTLA(o *Output) string {
 	var pats []string
@@ -1313,8 +1316,8 @@ func renderTLA(o *Output) string {
 			slash = slashTarget(pats, r.Pat+"/")
 		}
 
-		fmt.Fprintf(&sb, "  [pat |-> %s, method |-> %s, chain |-> %s, via |-> %s, site |-> %s,\n   subtree |-> %s, slash |-> %s, installPfx |-> %s, assetsPfx |-> %s]",
-			tlaStr(r.Pat), tlaStr(r.Method), tlaSeq(r.Chain), tlaStr(r.Via), tlaStr(r.Site),
+		fmt.Fprintf(&sb, "  [pat |-> %s, method |-> %s, chain |-> %s, via |-> %s, mux |-> %s, site |-> %s,\n   subtree |-> %s, slash |-> %s, installPfx |-> %s, assetsPfx |-> %s]",
+			tlaStr(r.Pat), tlaStr(r.Method), tlaSeq(r.Chain), tlaStr(r.Via), tlaStr(r.Mux), tlaStr(r.Site),
 			tlaBool(strings.HasSuffix(r.Pat, "/")), tlaStr(slash),
 			tlaBool(strings.HasPrefix(r.Pat, "/install.")), tlaBool(strings.HasPrefix(r.Pat, "/assets/")))
 	}
